@@ -288,8 +288,13 @@ impl Args {
                     ExecutionError::Timeout(timeout, outputs) => {
                         // append outcomes for each testcase that was executed (i.e. all testcase
                         // until and including the one that timed out)
-                        outcomes.extend(outputs.iter().zip(testcases.iter()).map(
+                        outcomes.extend(outputs.iter().zip(testcases.iter()).filter_map(
                             |(output, testcase)| {
+                                // detached testcases are not validated here either
+                                if output.exit_code == ExitStatus::Detached {
+                                    count_detached += 1;
+                                    return None;
+                                }
                                 let result = if matches!(output.exit_code, ExitStatus::Timeout(_)) {
                                     count_failed += 1;
                                     Err(TestCaseError::Timeout)
@@ -303,14 +308,14 @@ impl Args {
                                         Ok(())
                                     }
                                 };
-                                Outcome {
+                                Some(Outcome {
                                     location: Some(test.path.display().to_string()),
                                     testcase: (*testcase).clone(),
                                     output: output.clone(),
                                     escaping: escaping.clone(),
                                     format: test.parser_type,
                                     result,
-                                }
+                                })
                             },
                         ));
 
